@@ -168,7 +168,12 @@ func genFeed(r *Rng, o feedOpts) *feed {
 			for d := 0; d < 7; d++ {
 				row = append(row, r.Pick([]string{"0", "1"}))
 			}
-			row = append(row, mess("20230301", "", "2023-03-01", "20231301"), mess("20230930", "", "20230231"))
+			// ranges: the usual one, one-day ranges, ranges ending before they start, ranges over a year end and a leap
+			// day, and ranges whose ends are days on which a generated zone changes its offset
+			rg := [][2]string{{"20230301", "20230930"}, {"20230301", "20230930"}, {"20230615", "20230615"}, {"20230930", "20230301"},
+				{"20231215", "20240115"}, {"20240201", "20240229"}, {"20230312", "20231105"}, {"20230326", "20231029"}, {"20230402", "20231001"},
+				{"19700101", "20380119"}}[r.Intn(10)]
+			row = append(row, mess(rg[0], "", "2023-03-01", "20231301"), mess(rg[1], "", "20230231"))
 			cal.rows = append(cal.rows, row)
 		}
 		nEx := r.Intn(4)
@@ -176,7 +181,7 @@ func genFeed(r *Rng, o feedOpts) *feed {
 			nEx = 1
 		}
 		for k := 0; k < nEx; k++ {
-			date := r.Pick([]string{"20230101", "20230401", "20230615", "20231231", "20240229", dateString(r, k)})
+			date := r.Pick([]string{"20230101", "20230401", "20230615", "20231231", "20240229", "20230312", "20231105", "20230326", "20231029", "20230402", "20231001", dateString(r, k)})
 			cd.rows = append(cd.rows, []string{mess(id, ""), mess(date, "", "20230931", "x"), mess(r.Pick([]string{"1", "2"}), "3", "")})
 		}
 	}
